@@ -208,18 +208,19 @@ where
         metrics::packet_size::record_serverbound(packet_size);
         tracing::Span::current().record("packet_length", packet_size);
 
+        // the frame is exactly `length` bytes: the encoded packet id followed by the packet body
+        let mut frame = (&mut self.stream).take(length as u64);
+
         // extract the encoded packet id
-        let id = self
-            .stream
+        let id = frame
             .read_varint()
             .instrument(tracing::info_span!("read_packet_id", otel.kind = "server"))
             .await?;
         tracing::Span::current().record("packet_id", id);
 
-        // split a separate reader from the stream and read packet bytes (advancing stream)
+        // read the remaining packet bytes (advancing stream)
         let mut buffer = vec![];
-        (&mut self.stream)
-            .take(length as u64 - 1)
+        frame
             .read_to_end(&mut buffer)
             .instrument(tracing::info_span!(
                 "read_packet_bytes",
